@@ -10,6 +10,8 @@ import (
 	"path/filepath"
 	"strconv"
 	"strings"
+	"time"
+	"verif/internal/harness"
 )
 
 type feReq struct {
@@ -51,6 +53,10 @@ type frontEnd struct {
 	race   bool
 	Stderr []string // stderr of every child (race reports live here)
 	n      int
+	c      *ctx
+	// ExternalKills: driver processes killed by a SIGKILL this check did not send (OOM killer under other workloads):
+	// the request is lost and the run inconclusive, never a violation
+	ExternalKills int
 }
 
 // buildFront compiles drivers/frontdrv together with a copy of the given peg.peg.go (the front end under test).
@@ -79,7 +85,7 @@ func buildFront(c *ctx, pegGo string, race bool, tag string) *frontEnd {
 	if out, err := c.env.RunGo(dst, args...); err != nil {
 		die("building front-end driver (%s) failed: %v\n%s", tag, err, out)
 	}
-	return &frontEnd{bin: filepath.Join(dst, "frontdrv.bin"), dir: dst, race: race}
+	return &frontEnd{bin: filepath.Join(dst, "frontdrv.bin"), dir: dst, race: race, c: c}
 }
 
 // run sends the requests to one driver process, restarting it after the request on which it died.
@@ -102,12 +108,19 @@ func (f *frontEnd) run(reqs []feReq) []feRes {
 			in.Write(b)
 			in.WriteByte('\n')
 		}
-		cmd := exec.Command("bash", "-c", fmt.Sprintf("ulimit -t 900; exec timeout -s QUIT 1800 %s %s", f.bin, prog))
+		cmd := exec.Command("bash", "-c", fmt.Sprintf("ulimit -t 900; exec %s %s", f.bin, prog))
 		cmd.Env = append(os.Environ(), "GORACE=atexit_sleep_ms=0 halt_on_error=0 exitcode=0", "GOTRACEBACK=single")
 		cmd.Stdin = &in
 		var so, se bytes.Buffer
 		cmd.Stdout, cmd.Stderr = &so, &se
-		err := cmd.Run()
+		memMB := harness.DefaultMemMB
+		if f.race {
+			memMB *= 3
+		}
+		guard, err := harness.RunGuarded(cmd, memMB, 1800*time.Second)
+		if guard.MemKilled {
+			se.WriteString(fmt.Sprintf("\nverif: the driver exceeded the memory limit of %d MB and was killed (runaway allocation?)\n", memMB))
+		}
 		if se.Len() > 0 {
 			f.Stderr = append(f.Stderr, se.String())
 		}
@@ -135,7 +148,15 @@ func (f *frontEnd) run(reqs []feReq) []feRes {
 		if last < 0 || done[last] {
 			die("front-end driver died outside any request: %v\n%s", err, tail(se.String(), 2000))
 		}
-		res[last] = feRes{ID: last, Fatal: fmt.Sprintf("driver process died (%v): %s", err, tail(se.String(), 1500))}
+		if guard.ExternalKill(900*time.Second) || guard.WallKilled {
+			f.ExternalKills++
+			res[last] = feRes{ID: last, Lost: true}
+			if f.c != nil {
+				f.c.run.Incon("a front-end driver process was killed from outside (SIGKILL not sent by this check: OOM killer under other workloads?) or stopped by the wall-clock watchdog")
+			}
+		} else {
+			res[last] = feRes{ID: last, Fatal: fmt.Sprintf("driver process died (%v): %s", err, tail(se.String(), 1500))}
+		}
 		done[last] = true
 		var rest []int
 		for _, i := range remaining {
